@@ -193,7 +193,9 @@ def check_case(root, spec, pp, cfg, out, armed):
     # (d) globmatch(REALPATH) applies the same rule to a given path
     model = T.Model(root)
     cands = [p for p, _d, _l in model.all_entries(follow=True, max_depth=4)]
-    for c in cands:
+    fd = os.open(root, os.O_RDONLY)
+    try:
+      for ci, c in enumerate(cands):
         comps = c.split('/')
         if '..' in comps:
             continue
@@ -202,17 +204,28 @@ def check_case(root, spec, pp, cfg, out, armed):
             continue
         try:
             with util.watchdog(5):
-                m = G.globmatch(c, text, flags=fl | G.REALPATH, root_dir=root)
+                # the same rule whichever way the root is given: root_dir, dir_fd, working directory
+                how = ci % 3
+                if how == 0:
+                    m = G.globmatch(c, text, flags=fl | G.REALPATH, root_dir=root)
+                elif how == 1:
+                    m = G.globmatch(c, text, flags=fl | G.REALPATH, dir_fd=fd)
+                else:
+                    with util.chdir(root):
+                        m = G.globmatch(c, text, flags=fl | G.REALPATH)
         except util.HarnessBudget:
             continue
         out.evaluations += 1
         if m and forced_through_link(comps, lf, segs, full=True, icase=icase):
             cs = dict(case, problem='globmatch(REALPATH) accepted a path below a symlink traversed by `**`', name=c)
+            cs['root_given_as'] = ['root_dir', 'dir_fd', 'cwd'][how]
             if k17 and 'K17' in armed:
                 out.known_hit('K17', cs)
             else:
                 out.violation(cs, size=len(text) * 10 + len(c), bucket=('realpath', tuple(sorted(cfg))))
-            return
+            return res
+    finally:
+        os.close(fd)
     return res
 
 
